@@ -292,7 +292,22 @@ func ruleLogShapes(c *eng.Ctx) {
 				}
 			}
 		})
-		c.Check(okDel, "Truncate drops every later segment", p.Pos(fn.Pos()), "delete loop starts at idx + 1", "the loop deleting later segments does not start at idx+1")
+		if !okDel {
+			// or, newest first: the counter starts at len(l.segments)-1 and the body runs while it is above idx
+			startsAtEnd := false
+			eng.Instrs(fn, func(in ssa.Instruction) {
+				if ph, isPhi := in.(*ssa.Phi); isPhi {
+					for _, e := range ph.Edges {
+						if eng.Bin(token.SUB, eng.Len(eng.AnyV), eng.IntConst(1))(e) {
+							startsAtEnd = true
+						}
+					}
+				}
+			})
+			above := eng.CmpEdges(fn, func(v ssa.Value) bool { _, isPhi := v.(*ssa.Phi); return isPhi }, call(cl+"findSegment"), eng.GT)
+			okDel = startsAtEnd && len(above) > 0 && eng.ExactCmp(fn, func(v ssa.Value) bool { _, isPhi := v.(*ssa.Phi); return isPhi }, call(cl+"findSegment"), eng.GT)
+		}
+		c.Check(okDel, "Truncate drops every later segment", p.Pos(fn.Pos()), "the delete loop covers idx+1 … len-1 (from idx+1 upwards, or from len-1 down to idx+1)", "the loop deleting later segments does not cover exactly the segments after idx")
 	}
 	if fn := c.Fn(cl + "(*segment).Replace"); fn != nil {
 		rep := p.Field(clPkg, "segment", "replaced")
